@@ -315,7 +315,78 @@ def convert_tables():
            f"def sliceDefaultStep : Int := {s_step}", "", "end MV", ""]
     return "\n".join(out), {"range": [r_inc, r_adj, r_step, r_fn], "slice": [s_inc, s_adj, s_step, s_fn]}
 
-TABLES = {"LexTables": lex_tables, "CoreTables": core_tables, "ConvertTables": convert_tables}
+
+# ------------------------------------------------------------------------------------------------
+# Where the generate stage reads the `annotate` option (generate/**): every read must be one of the
+# modelled guards of a *type annotation field*; any other read breaks the tie.
+# ------------------------------------------------------------------------------------------------
+ANNOTATE_ALLOWED = [
+    (r"pub annotate: bool,", "decl"),
+    (r"annotate: gen_arguments\.annotate,", "init"),
+    (r"annotate: pipeline_args\.annotate,", "init"),
+    (r"annotate: false,", "init"),
+    (r"let annotate =", "VarDefOrArgGuard"),
+    (r"state\.annotate && state\.expand_ty && !matches!\(var, Core::TupleLiteral \{ \.\. \}\);", "VarDefGuard"),
+    (r"let annotate = state\.annotate", "FunArgGuard"),
+    (r"\(Some\(ty\), _\) if annotate => Some\(Box::from\(ty\.to_py\(imp\)\)\),", "VarDefTyDeclared"),
+    (r"\(_, Some\(expr\)\) if annotate => \{", "VarDefTyInferred"),
+    (r"Some\(ret_ty\) if state\.annotate => Some\(Box::from\(ret_ty\.to_py\(imp\)\)\),", "FunRetTy"),
+    (r"ty: if annotate \{", "FunArgTy"),
+]
+
+
+def annotate_tables():
+    import glob as _glob
+    sites = []
+    for path in sorted(_glob.glob(os.path.join(REPO, "src", "generate", "**", "*.rs"), recursive=True)):
+        rel = os.path.relpath(path, REPO)
+        text = open(path, encoding="utf-8").read()
+        # drop test modules
+        cut = text.find("#[cfg(test)]")
+        body = text if cut < 0 else text[:cut]
+        for ln, line in enumerate(body.splitlines(), 1):
+            if "annotate" not in line or line.strip().startswith("//"):
+                continue
+            kinds = [k for pat, k in ANNOTATE_ALLOWED if re.search(pat, line)]
+            if not kinds:
+                raise TranslateError(f"{rel}:{ln}: unmodelled use of the annotate option: {line.strip()!r}")
+            sites.append((rel, ln, kinds[-1]))
+    need = {"VarDefGuard", "FunArgGuard", "VarDefTyDeclared", "VarDefTyInferred", "FunRetTy", "FunArgTy"}
+    have = {k for _, _, k in sites}
+    if not need <= have:
+        raise TranslateError(f"annotate: expected guards missing: {sorted(need - have)}")
+    d = read("src/generate/convert/definition.rs")
+    m = re.search(r"is_last_must_be_ret\(([a-z_]+)\.is_some\(\)\)", d)
+    if not m:
+        raise TranslateError("definition.rs: is_last_must_be_ret(<x>.is_some()) not found")
+    src_var = m.group(1)
+    if src_var not in ("ret_ty", "ty"):
+        raise TranslateError(f"definition.rs: is_last_must_be_ret decided from unknown value {src_var}")
+    # FunArg guard: self is never annotated
+    if not re.search(r"let annotate = state\.annotate\s*&& state\.expand_ty\s*&& var\s*!= Core::Id \{\s*lit: String::from\(SELF\),\s*\};", d):
+        raise TranslateError("definition.rs: FunArg annotate guard not in the expected shape")
+    outside = []
+    for path in sorted(_glob.glob(os.path.join(REPO, "src", "**", "*.rs"), recursive=True)):
+        rel = os.path.relpath(path, REPO)
+        if rel.startswith("src/generate/") or rel in ("src/lib.rs", "src/main.rs"):
+            continue
+        text = open(path, encoding="utf-8").read()
+        code = "\n".join(l.split("//")[0] for l in text.splitlines())
+        if re.search(r"\bannotate\b", code):
+            outside.append(rel)
+    if outside:
+        raise TranslateError(f"the annotate option is mentioned outside the generate stage: {outside}")
+    out = ["-- GENERATED by tools/translate.py from /repo/src/generate/**/*.rs — do not edit", "namespace MV", "",
+           "/-- what decides whether the last expression of a function body becomes a `return` -/",
+           "inductive RetDecision where", "  | declared   -- the declared return type of the source (`ret_ty.is_some()`)",
+           "  | rendered   -- the rendered annotation (`ty.is_some()`), absent when annotate is off",
+           "  deriving DecidableEq, Repr", "",
+           f"def retDecision : RetDecision := .{'declared' if src_var == 'ret_ty' else 'rendered'}",
+           f"/-- number of places of the generate stage that read the option; each guards a type annotation field only -/",
+           f"def annotateReadSites : Nat := {len([1 for _, _, k in sites if k not in ('decl', 'init')])}", "", "end MV", ""]
+    return "\n".join(out), {"sites": [f"{r}:{l}:{k}" for r, l, k in sites], "ret_decision": src_var}
+
+TABLES = {"LexTables": lex_tables, "CoreTables": core_tables, "ConvertTables": convert_tables, "AnnotateTables": annotate_tables}
 
 
 def main(argv):
